@@ -21,7 +21,8 @@ CHECKS = {
 CHECKS["C04"] = dict(
     category="exploration", design_ref="DESIGN.md 2/C04",
     technique="PBT with fault injection on a simulated network; oracle = reference key copies + reference cell encoding",
-    text="Hypothesis-drawn cases (hop count, cell kind, direction, payload length/shape, destination, in-flight fault) run "
+    text="Hypothesis-drawn cases (hop count, cell kind, direction, payload length/shape, destination, traffic history of the "
+         "circuit in both directions, in-flight fault) run "
          "the real circuit protocol between real TunnelCommunity nodes on a simulated network under a virtual clock; "
          "delivery, per-link layering (checked with key objects the harness derives itself from traced secrets) and "
          "non-delivery of altered/foreign cells are judged per case; a positional sweep flips every n-th byte of a data "
